@@ -231,6 +231,8 @@ func (g *Gen) Num(d int) string {
 // ArrN returns an expression denoting an array of numbers.
 func (g *Gen) ArrN(d int) string {
 	leaves := lit(`nums`, `items.q`, `[1..3]`, `[3, 1, 2]`, `nums[$ > 1]`, `nums^(>$)`, `nums^($)`,
+		// sort terms / comparisons over values whose kind differs between documents
+		`mixed^(v).v`, `mixed^(>v).v`, `$sort(mixed.v)`, `mixed[v > 0].v`,
 		// `page` is a sub-slice of `nums` in some documents (shared backing array)
 		`page`, `$append(page, 99)`, `$append(page, nums)`, `$append(page, [7, 8, 9])`)
 	nodes := []func(d int) string{
